@@ -58,7 +58,10 @@ mutual
 def encode : PyVal → PyVal
   | .tuple xs => .dict [(.s "_type", .str "tuple"), (.s "_value", .list (encodeL xs))]
   | .list xs => .list (encodeL xs)
-  | .dict kvs => .dict (encodeKV kvs)
+  | .dict kvs =>
+      -- a user dict that carries the tag key itself is wrapped, so that it cannot be mistaken for an encoded tuple
+      if (lookup kvs (.s "_type")).isSome then .dict [(.s "_type", .str "dict"), (.s "_value", .dict (encodeKV kvs))]
+      else .dict (encodeKV kvs)
   | .npint n => .int n
   | .npfloat r => .float r
   | .npbool b => .bool b
@@ -127,6 +130,13 @@ def decode : PyVal → Except Err PyVal
   | .dict kvs =>
       match lookup kvs (.s "_type") with
       | some (.str "tuple") => decodeTupleValue kvs      -- `tuple(decode_types(v) for v in obj["_value"])`
+      | some (.str "dict") =>
+          -- `obj.get("_type") == "dict" and isinstance(obj.get("_value"), dict)`: the wrapped user dict
+          match decodeDictValue kvs with
+          | some r => r
+          | Option.none => match decodeKV kvs with
+              | .ok r => .ok (.dict r)
+              | .error e => .error e
       | _ => match decodeKV kvs with
           | .ok r => .ok (.dict r)
           | .error e => .error e
@@ -150,6 +160,17 @@ def decodeTupleValue : List (PKey × PyVal) → Except Err PyVal
         | .dict kvs' => .ok (.tuple (kvs'.map fun kv => keyAsVal kv.1))              -- iterating a dict
         | _ => .error .type_error                                                    -- not iterable
       else decodeTupleValue t
+/-- the wrapped dict `obj["_value"]` decoded value by value, if `_value` is present and a dict (`none` otherwise) -/
+def decodeDictValue : List (PKey × PyVal) → Option (Except Err PyVal)
+  | [] => Option.none
+  | (k, v) :: t =>
+      if k = .s "_value" then
+        match v with
+        | .dict inner => some (match decodeKV inner with
+            | .ok r => .ok (.dict r)
+            | .error e => .error e)
+        | _ => Option.none
+      else decodeDictValue t
 def decodeL : List PyVal → Except Err (List PyVal)
   | [] => .ok []
   | x :: xs => match decode x, decodeL xs with
@@ -211,7 +232,7 @@ def PlainL : List PyVal → Bool
 end
 
 mutual
-/-- well formed: array payloads are `tolist()` images; no dict claims `"_type": "tuple"`; dict keys are strings -/
+/-- well formed: array payloads are `tolist()` images; dict keys are strings -/
 def Good : PyVal → Bool
   | .ndarray t => Plain t
   | .arraylike t => Plain t
@@ -222,12 +243,12 @@ def Good : PyVal → Bool
 def GoodL : List PyVal → Bool
   | [] => true
   | x :: xs => Good x && GoodL xs
-/-- every key is a string other than `"_type"`-with-value-`"tuple"`, every value is good -/
+/-- every key is a string, every value is good -/
 def GoodKV : List (PKey × PyVal) → Bool
   | [] => true
   | (k, v) :: t =>
       (match k with
-       | .s s => !(s == "_type" && (match v with | .str "tuple" => true | _ => false))
+       | .s _ => true
        | .i _ => false)
       && Good v && GoodKV t
 end
@@ -268,9 +289,19 @@ def arrToTuple : PyVal → PyVal
   | .ndarray (.list xs) => .tuple xs
   | v => v
 
-/-- `axis_to_dict` -/
-def axisToDict (a : Axis) : PyVal :=
+/-- the dict `axis_to_dict` builds when every array-valued field can be turned into a tuple -/
+def axisToDictRaw (a : Axis) : PyVal :=
   .dict (put (a.fields.map fun kv => (PKey.s kv.1, arrToTuple kv.2)) (.s "type") (.str a.cls))
+
+/-- `tuple(value.tolist())` needs an iterable: a 0-d array field raises TypeError ('float' object is not iterable) -/
+def fieldOk : PyVal → Bool
+  | .ndarray (.list _) => true
+  | .ndarray _ => false
+  | _ => true
+
+/-- `axis_to_dict` -/
+def axisToDict (a : Axis) : Except Err PyVal :=
+  if a.fields.all (fun kv => fieldOk kv.2) then .ok (axisToDictRaw a) else .error .type_error
 
 /-- `axis_from_dict`: `globals()[d["type"]](**{k: v for k, v in d.items() if k != "type"})` -/
 def axisFromDict (tbl : List ClassDecl) (d : PyVal) : Except Err Axis :=
@@ -300,8 +331,14 @@ def reserved : List String := ["axes", "data_origin", "type", "kwargs"]
 def packMetadata (md : List (PKey × PyVal)) (axes origin cls kwargs : PyVal) : List (PKey × PyVal) :=
   put (put (put (put md (.s "axes") axes) (.s "data_origin") origin) (.s "type") cls) (.s "kwargs") kwargs
 
-/-- `metadata.pop("data_origin", None); pop("type"); pop("kwargs", None); pop("axes")` -/
+/-- `metadata.pop("data_origin", None); pop("type"); kwargs = pop("kwargs", None); pop("axes")`, then — the keys above shadow user
+entries of the same name — `if isinstance(kwargs, dict) and isinstance(kwargs.get("metadata"), dict): metadata = dict(kwargs["metadata"])` -/
 def unpackMetadata (md : List (PKey × PyVal)) : List (PKey × PyVal) :=
-  erase (erase (erase (erase md (.s "data_origin")) (.s "type")) (.s "kwargs")) (.s "axes")
+  match lookup md (.s "kwargs") with
+  | some (.dict kw) =>
+      match lookup kw (.s "metadata") with
+      | some (.dict m) => m
+      | _ => erase (erase (erase (erase md (.s "data_origin")) (.s "type")) (.s "kwargs")) (.s "axes")
+  | _ => erase (erase (erase (erase md (.s "data_origin")) (.s "type")) (.s "kwargs")) (.s "axes")
 
 end AbtemVerif.Json
